@@ -184,6 +184,7 @@ class Column(ComponentSchema[PolarsCheckObjects]):
             "description": self.description,
             "default": self.default,
             "metadata": self.metadata,
+            "drop_invalid_rows": self.drop_invalid_rows,
         }
 
     @property
